@@ -50,12 +50,31 @@ def main():
         if d0.returncode != 0:
             print('REJECT: demo fails WITHOUT the patch (on current /repo HEAD):', d0.stdout[-600:], d0.stderr[-600:])
             return 1
+        cfiles = [f for f in os.listdir(os.path.join(wt, 'regions/_geometry')) if f.endswith('.c')]
+        for f in cfiles:
+            shutil.copy(os.path.join(wt, 'regions/_geometry', f), os.path.join(wt, 'regions/_geometry', f + '.orig'))
         a = run(['git', '-C', wt, 'apply', '--whitespace=nowarn', os.path.abspath(patch)])
         if a.returncode:
             a = run(['patch', '-p1', '-d', wt, '-i', os.path.abspath(patch)])
             if a.returncode:
+                a = run(['patch', '-p0', '-d', wt, '-i', os.path.abspath(patch)])
+            if a.returncode:
                 print('REJECT: patch does not apply to current HEAD:', a.stdout[-400:], a.stderr[-400:])
                 return 1
+        cdiff = ''
+        for f in cfiles:
+            po, pn = os.path.join(wt, 'regions/_geometry', f + '.orig'), os.path.join(wt, 'regions/_geometry', f)
+            if open(po).read() != open(pn).read():
+                # kernel-level change: rebuild the extension from the modified generated C
+                inc = run([PY, '-c', 'import sysconfig, numpy; print(sysconfig.get_paths()["include"]); print(numpy.get_include())']).stdout.split()
+                import glob
+                so = glob.glob(os.path.join(wt, 'regions/_geometry', f[:-2] + '.*.so'))[0]
+                c = run(['gcc', '-O1', '-shared', '-fPIC', '-w'] + ['-I' + i for i in inc] + ['-I' + os.path.join(wt, 'regions/_geometry'), pn, '-o', so, '-lm'])
+                if c.returncode:
+                    print('REJECT: kernel C does not build', c.stderr[-400:])
+                    return 1
+                cdiff += run(['diff', '-u', '--label', 'a/regions/_geometry/' + f, '--label', 'b/regions/_geometry/' + f, po, pn]).stdout
+            os.unlink(po)
         imp = run([PY, '-c', 'import regions, sys; assert regions.__file__.startswith(sys.argv[1]), regions.__file__', wt], cwd=wt, env=env)
         if imp.returncode:
             print('REJECT: does not import with the patch', imp.stderr[-400:])
@@ -80,7 +99,7 @@ def main():
             print(f'REJECT: {len(missing)} baseline tests no longer pass with the patch, e.g. {missing[:3]}')
             return 1
         # normalised diff relative to the worktree
-        diff = run(['git', '-C', wt, 'diff', '--', 'regions']).stdout
+        diff = run(['git', '-C', wt, 'diff', '--', 'regions']).stdout + cdiff
         out = os.path.join(VERIF, 'seeded', f'{prop}-{slug}')
         os.makedirs(out, exist_ok=True)
         open(os.path.join(out, 'patch.diff'), 'w').write(diff)
